@@ -239,6 +239,7 @@ func setFloors(r *vf.Run, prop string) {
 		r.Floor("check.utxo", 100)
 	case "C03":
 		r.Floor("forge.rejected.hours-created", 1)
+		r.Floor("forge.rejected.hours-created-beside-overflow-input", 1)
 		r.Floor("check.hours.txn", 20)
 	case "C04":
 		r.Floor("probe.families", 4)
